@@ -269,3 +269,89 @@ func VerifC18Keys() {
 	vrtObserve("n", len(got))
 	vrtAssert("exact-key-and-value", vrtDeepEqual(got, want))
 }
+
+// VerifC18Reassign: four lines over two variables, each an assignment of a literal or of a reference to either
+// variable (plain, braced, double-quoted), in every order: a reference sees the value its variable has at that line
+// - the lookup's if the lookup defines it, else the latest earlier assignment - and the last assignment of a key wins.
+func VerifC18Reassign() {
+	vars := []string{"A", "B"}
+	lookupA := vrtChoice("lookupDefinesA", 2) == 1
+	lookup := func(k string) (string, bool) {
+		if lookupA && k == "A" {
+			return "L", true
+		}
+		return "", false
+	}
+	cur := map[string]string{}
+	src := ""
+	n := 2 + vrtChoice("lines", vrtParam("LINES", 3))
+	for k := 0; k < n; k++ {
+		x := vars[vrtChoice("target", 2)]
+		var val string
+		if vrtChoice("kind", 2) == 0 {
+			val = string(rune('1' + k))
+			src += x + "=" + val + "\n"
+		} else {
+			y := vars[vrtChoice("ref", 2)]
+			form := vrtChoice("refForm", 3)
+			if v, ok := lookup(y); ok {
+				val = v
+			} else {
+				val = cur[y]
+			}
+			val += "z"
+			src += x + "=" + []string{"$" + y + "z", "${" + y + "}z", "\"${" + y + "}z\""}[form] + "\n"
+			if form == 0 {
+				// $Yz names the variable Yz, which nothing defines
+				val = ""
+			}
+		}
+		cur[x] = val
+	}
+	got, err := UnmarshalWithLookup(src, lookup)
+	vrtObserve("err", err != nil)
+	vrtAssert("parses", err == nil)
+	if err != nil {
+		return
+	}
+	vrtObserve("n", len(got))
+	vrtAssert("references-see-the-current-value-and-last-assignment-wins", vrtDeepEqual(got, cur))
+}
+
+// VerifC18Quotes: single- and double-quoted values ending in runs of backslashes, followed by further quoted lines.
+func VerifC18Quotes() {
+	q := []string{"'", "\""}[vrtChoice("quote", 2)]
+	bs := vrtChoice("backslashes", 4) // backslashes before the closing quote
+	body := "x"
+	for k := 0; k < bs; k++ {
+		body += "\\"
+	}
+	second := []string{"B='y'\n", "B=\"y\"\n", "# it's a comment\nB=y\n", "B=y\n"}[vrtChoice("second", 4)]
+	src := "A=" + q + body + q + "\n" + second
+	got, err := UnmarshalWithLookup(src, func(string) (string, bool) { return "", false })
+	vrtObserve("err", err != nil)
+	if q == "'" {
+		// single quotes: a backslash only escapes a quote; an odd run therefore keeps the value open
+		if bs%2 == 1 {
+			return // the closing quote is escaped: where the value ends depends on the following lines - not asserted here
+		}
+		vrtAssert("single-quoted-parses", err == nil)
+		if err == nil {
+			vrtObserve("A", got["A"])
+			vrtAssert("single-quoted-is-literal", got["A"] == body && got["B"] == "y" && len(got) == 2)
+		}
+		return
+	}
+	if bs%2 == 1 {
+		return
+	}
+	vrtAssert("double-quoted-parses", err == nil)
+	if err == nil {
+		want := "x"
+		for k := 0; k < bs/2; k++ {
+			want += "\\"
+		}
+		vrtObserve("A", got["A"])
+		vrtAssert("double-quoted-unescapes-backslash-pairs", got["A"] == want && got["B"] == "y" && len(got) == 2)
+	}
+}
